@@ -327,13 +327,14 @@ async fn ask(f: &Fixture, q: &Q, t: u64) -> (String, bool, String) {
             let ev = LdapTokenAuthEvent::from_parts(gs::parse_jws(token).expect("jws")).expect("ev");
             let r = a.token_auth_ldap(&ev, now).await;
             drop(a);
-            // A token bind is only a parse; the bound session is (re)validated on every LDAP
-            // operation. Success here = the bound session is accepted for an operation at `t`.
+            // The bind answer itself is the authentication result an LDAP client sees (many
+            // applications use "bind succeeded" as their password check), so a successful bind is
+            // success. The bound session is additionally validated as every LDAP operation does.
             match r {
                 Ok(Some(b)) => {
                     let mut rd = f.w.idms.proxy_read().await.expect("read");
                     let v = rd.validate_ldap_session(&b.effective_session, Source::Internal, now);
-                    (format!("ldap-token-bind:{tok:?}"), v.is_ok(), format!("bind ok, session {:?}", v.map(|_| ())))
+                    (format!("ldap-token-bind:{tok:?}"), true, format!("bind accepted, bound session {:?}", v.map(|_| ())))
                 }
                 o => (format!("ldap-token-bind:{tok:?}"), false, format!("{:?}", o.map(|_| ()))),
             }
@@ -411,10 +412,6 @@ fn run(rt: &tokio::runtime::Runtime, c: &Case) -> Outcome {
                 Pos::Outside => {
                     n_out += 1;
                     log.class(format!("outside:{label}"));
-                    if !ok && label.starts_with("ldap-token-bind") && detail.starts_with("bind ok") {
-                        // observation only: the bind step is a token parse; the session is refused on use
-                        log.class("note: ldap token bind step accepted outside window, bound session refused");
-                    }
                     if ok {
                         let side = if c.vf.map(grid).map(|v| t < v).unwrap_or(false) { "before valid_from" } else { "after expire" };
                         log.fail(
@@ -461,7 +458,7 @@ fn main() {
          non-trivial = the case asked at least one instant strictly outside and one strictly inside the window; distinct by hash of the case",
     );
     cx.assume("exact edge instants (t == valid_from or t == expire) are not judged: the property does not say which side they belong to");
-    cx.assume("all steps of one interactive login / reauth happen at the same instant; an LDAP token bind counts as success only when the bound session is accepted for an operation");
+    cx.assume("all steps of one interactive login / reauth happen at the same instant; an LDAP token bind counts as success when the bind itself is answered with success (what an LDAP client sees)");
     cx.assume("OAuth2 authorise/refresh/introspect paths are not driven by this check");
     let n = cx.tier.pick(500, 12_000);
     let nq = cx.tier.pick(1..17usize, 1..30usize);
